@@ -51,7 +51,7 @@ CALLS = {
 BINOPS = {"==": "=?", "<": "<?", "<=": "<=?", "&&": "&&", "||": "||"}
 FLIP = {">": "<", ">=": "<="}
 
-TOK = re.compile(r"\s*(?:(//[^\n]*)|(/\*.*?\*/)|([A-Za-z_][A-Za-z0-9_]*)|(\d[\d_]*)|(\"(?:[^\"\\]|\\.)*\"|::|->|=>|==|!=|<=|>=|&&|\|\||[-+*/!&.,;:(){}\[\]<>=?]))", re.S)
+TOK = re.compile(r"\s*(?:(//[^\n]*)|(/\*.*?\*/)|([A-Za-z_][A-Za-z0-9_]*)|(\d[\d_]*)|(\"(?:[^\"\\]|\\.)*\"|::|->|=>|==|!=|<=|>=|&&|\|\||[-+*/!&.,;:(){}\[\]<>=?|]))", re.S)
 
 
 class Fail(Exception):
